@@ -23,6 +23,14 @@ Encaps(S, x, y, immediate) ==
   /\ S.e2n[y] # {} /\ S.e2n[y] \subseteq S.e2n[x] /\ S.e2n[y] # S.e2n[x]
   /\ (immediate => SizeOf(S, x) = SizeOf(S, y) + 1)
 
+\* "empirical": only the subsets of maximum existing size.  The library additionally prunes on the
+\* superset side, in an order dependent way; the two passes cannot interact when all proper supersets
+\* of every edge have one size, and only then is the result specified here.
+SupersetSizes(S, y) == {SizeOf(S, x) : x \in {z \in EdgeSet(S) : Encaps(S, z, y, FALSE)}}
+EmpiricalDefined(S) == \A y \in EdgeSet(S) : Cardinality(SupersetSizes(S, y)) <= 1
+EmpiricalArcs(S) == {p \in EdgeSet(S) \X EdgeSet(S) : Encaps(S, p[1], p[2], FALSE) /\
+                       \A z \in EdgeSet(S) : Encaps(S, p[1], z, FALSE) => SizeOf(S, z) <= SizeOf(S, p[2])}
+
 Clauses(S, o) ==
   << <<"components", SetOfSets(o.comps) = Components(S) /\ Len(o.comps) = Cardinality(Components(S))>>,
      <<"components.partition", (UNION SetOfSets(o.comps)) = NodeSet(S)
@@ -54,8 +62,11 @@ Clauses(S, o) ==
      <<"to_encapsulation_dag", \A k \in DOMAIN o.dag :
           LET e == o.dag[k] IN
           /\ Range(e.nodes) = EdgeSet(S)
-          /\ {<<e.arcs[q][1], e.arcs[q][2]>> : q \in DOMAIN e.arcs} =
-               {p \in EdgeSet(S) \X EdgeSet(S) : Encaps(S, p[1], p[2], e.immediate)}>> >>
+          /\ LET A == {<<e.arcs[q][1], e.arcs[q][2]>> : q \in DOMAIN e.arcs} IN
+             IF e.kind = "empirical"
+               THEN A \subseteq {p \in EdgeSet(S) \X EdgeSet(S) : Encaps(S, p[1], p[2], FALSE)}
+                    /\ (EmpiricalDefined(S) => A = EmpiricalArcs(S))
+               ELSE A = {p \in EdgeSet(S) \X EdgeSet(S) : Encaps(S, p[1], p[2], e.immediate)}>> >>
 
 Verdict(r) ==
   IF r.anom # <<>> THEN <<"C14:raised." \o r.anom[1]>> ELSE
